@@ -13,13 +13,13 @@ RULE = ("consistency: case = (line ≤ 80 characters over the markup alphabet + 
         "round trip: case = (valid abbreviation: serialised G1 script with ASCII names, bracket-balanced payloads, or G5 stylesheet abbreviation; left context ∈ start of "
         "line / blank / tab / word+blank / complete tags `<div>` `<p class=\"a\">` `</b>` `<br/>` `<a href=x>` `<img src=a.png>` `<div data-a=1>` / non-ASCII word+blank / `= ` / "
         "`{ ` / `return `; right context ∈ end / blank+word / `<` / `</p>` / auto-closed tail). Oracle: extract at the abbreviation's end (or before its auto-closed tail "
-        "of one quote + closing brackets) returns exactly the embedded abbreviation at its offset — also behind a configured prefix (`<`, `>>>`, `&&`, `→`) glued to arbitrary text; "
+        "of one quote + closing brackets) returns exactly the embedded abbreviation at its offset — also behind a configured prefix (`<`, `>>>`, `&&`, `→`, and the non-palindromes `<%`, `e:`, `->`) glued to arbitrary text; "
         "the abbreviation is first confirmed to expand. "
         "Non-trivial: round-trip case whose abbreviation has `>` after an attribute set/repeater/text or whose left context is a tag; distinct by case.")
 ASSUME = ["payloads inside [..] keep all three bracket kinds balanced and payloads inside {..} keep braces balanced and unescaped (the backward scanner documents that it respects all characters inside attribute sets or text nodes by bracket counting, not by quote/escape parsing)",
           "element names are ASCII; blanks, quotes, `=` and `,` occur only inside brackets; stylesheet abbreviations contain no function calls"]
 
-PREFIXES = ['', '<', '>>>', '&&', '→']
+PREFIXES = ['', '<', '>>>', '&&', '→', '<%', 'e:', '->']
 
 
 def check_consistency(case, rec, distinct=False):
@@ -91,7 +91,9 @@ def check_roundtrip(case, rec):
     # the abbreviation must be one the library expands (domain check, not an oracle)
     try:
         with guard():
-            expand(abbr, {'type': typ} if typ == 'stylesheet' else {})
+            # (maxRepeat 1: whether the text is an abbreviation does not depend on how many copies its repeaters make, and unrolling
+            # `*12` nested five deep is minutes of work that says nothing about extraction)
+            expand(abbr, {'type': typ} if typ == 'stylesheet' else {'maxRepeat': 1})
     except Exception:
         rec.skip('abbreviation-does-not-expand')
         return
@@ -188,7 +190,7 @@ def roundtrip_strategy():
             d['left'] = left + ' '
         return d
     markup = st.builds(mk, G.scripts(P_RT), st.lists(st.integers(0, 47), max_size=6), st.sampled_from(LEFT + ['foo', 'a.b>c', 'x{y}']), st.sampled_from(RIGHT), st.booleans(),
-                       st.sampled_from(['', '', '', '<', '>>>', '&&', '→']))
+                       st.sampled_from(['', '', '', ''] + PREFIXES))
     num = st.builds(lambda n, u, neg: {'k': 'num', 'neg': neg and n != '0', 'w': n, 'u': u}, st.sampled_from(['0', '1', '10', '.5', '1.5', '100']), st.sampled_from(['', 'p', 'px', 'e', '%']), st.booleans())
     col = st.builds(lambda h, a: {'k': 'col', 'hex': h, 'alpha': a}, st.sampled_from(['f', 'fc0', 'e7bc0b', '0', 'a1']), st.sampled_from([None, '.5']))
     prop = st.builds(lambda k, vs, imp: {'key': k, 'vals': vs, 'imp': imp}, st.sampled_from(['m', 'p', 'c', 'bg', 'bd', 'fz', 'lh', 'pos', 'd']), st.lists(st.one_of(num, num, col), max_size=3), st.booleans())
